@@ -88,11 +88,16 @@ pub open spec fn spec_entry(blocks: Map<InProgressBlock, BlockExec>, id: BlockId
     else if blocks.contains_key(InProgressBlock::Pending(id.0)) { Some(InProgressBlock::Pending(id.0)) }
     else { None }
 }
+// FROM THE STATEMENT ("only UNKNOWN parents fall back"): block `id` has a final state on this node exactly when an entry - the
+// one tracked under its full id (repair) or the one tracked under its slot (dissemination) - has ENDED under this very hash.
+// A copy that is still streaming does not hide a copy that has ended (finding F34: until fix the code, and this spec, which had
+// been copied from it, stopped at the first entry that existed).
 pub open spec fn spec_lookup(blocks: Map<InProgressBlock, BlockExec>, id: BlockId) -> Option<BlockExec> {
-    match spec_entry(blocks, id) {
-        Some(k) => if blocks[k].block_hash == Some(id.1) { Some(blocks[k]) } else { None },
-        None => None,
-    }
+    if blocks.contains_key(InProgressBlock::Known(id)) && blocks[InProgressBlock::Known(id)].block_hash == Some(id.1) {
+        Some(blocks[InProgressBlock::Known(id)])
+    } else if blocks.contains_key(InProgressBlock::Pending(id.0)) && blocks[InProgressBlock::Pending(id.0)].block_hash == Some(id.1) {
+        Some(blocks[InProgressBlock::Pending(id.0)])
+    } else { None }
 }
 pub open spec fn spec_seed(blocks: Map<InProgressBlock, BlockExec>, parent: Option<BlockId>) -> Hash {
     match parent {
@@ -129,7 +134,7 @@ props C20
 ret r
 rewrite*[R9] `block_id.clone()` => `verif_clone_block_id(block_id)`
 ensures
-        // [C20.a_sibling_of_the_same_slot_is_not_the_block]
+        // [C20.a_sibling_of_the_same_slot_is_not_the_block] (and a copy that is still streaming does not hide one that has ended: F34)
         r == (match spec_lookup(self.blocks@, *block_id) { Some(e) => Some(&e), None => None::<&BlockExec> }),
 @*/
 
